@@ -155,6 +155,26 @@ def run(m: Model, r: Report, tier: str) -> None:
     if n_rd < 3:
         raise AnalysisError("stream transport read() functions not found")
     tr.line_needs_delimiter(m, r, "R1")
+    # closing after the loss of the connection is harmless: StreamWriter.wait_closed() re-raises the connection error (e.g. a reset) that
+    # ended the stream, so every close() awaits it under a handler for connection errors (DoIPConnection.close is the model)
+    n_wc = 0
+    for c_ in m.classes.values():
+        if not c_.module.name.startswith("gallia.transports."):
+            continue
+        cl_ = c_.methods.get("close")
+        if cl_ is None:
+            continue
+        for n in ast.walk(cl_.node):
+            if isinstance(n, ast.Await) and isinstance(n.value, ast.Call) and isinstance(n.value.func, ast.Attribute) and n.value.func.attr == "wait_closed":
+                n_wc += 1
+                guarded = any(isinstance(t_, ast.Try) and any(n is x for b_ in t_.body for x in ast.walk(b_)) and
+                              any(h.type is None or any(k in ast.unparse(h.type) for k in ("ConnectionError", "OSError", "Exception")) for h in t_.handlers)
+                              for t_ in ast.walk(cl_.node))
+                r.check(guarded, "R6", f"{cl_.qualname}#close-after-loss",
+                        "wait_closed() is awaited without a handler for connection errors: after the peer reset the connection, close() raises ConnectionResetError "
+                        "(closing after loss is not harmless; teardown code sees an exception)", loc=f"{cl_.module.relpath}:{n.lineno}")
+    if n_wc < 3:
+        raise AnalysisError(f"only {n_wc} wait_closed() sites in transport close() functions")
     from sa.uds_rules import reconnect_unsafe_rule
     reconnect_unsafe_rule(m, r, "R5")
     ru = m.require_function(f"{CLIENT}.UDSClient.reconnect_unsafe")
